@@ -40,7 +40,7 @@ static int corpus_load(void) {
     corpus_loaded = 1; return 0;
 }
 
-enum { CP_CROSS, CP_EMAIL, CP_LOCAL, CP_DOMAIN, CP_LITERAL, CP_TLD, CP_IDN, CP_BYTES, CP_LONG, CP_N };
+enum { CP_CROSS, CP_EMAIL, CP_LOCAL, CP_DOMAIN, CP_LITERAL, CP_TLD, CP_IDN, CP_BYTES, CP_LONG, CP_LONGIDN, CP_ALTDOT, CP_LABELLEN, CP_MAXLIT, CP_N };
 static const char *corpus_name(int i) {
     static const char *n[] = {
         "cross: all strings over {a 1 . - @ [ ] : SP ( 0x01 #}",
@@ -51,7 +51,11 @@ static const char *corpus_name(int i) {
         "tld: every table row x prefixes, reserved names x prefixes x label lengths, near misses, single labels",
         "idn: 1-2 symbol labels of 8 scripts x suffixes, IDN TLD rows in U- and A-form",
         "bytes: every byte 0x01-0xFF at every position of 24 templates",
-        "long: lengths 0..300, 1 KiB, 64 KiB of 12 fillers with 0-1 deviations" };
+        "long: lengths 0..300, 1 KiB, 64 KiB of 12 fillers with 0-1 deviations",
+        "longidn: U-label domains of 1-7 labels x 8-56 letters, shared 255-byte prefixes back to back, soft-hyphen padding to 3 KiB",
+        "altdot: reserved names and table rows spelled with U+3002/U+FF0E/U+FF61 dots and fullwidth letters",
+        "labellen: labels of 58-70 characters with '_' / '-' tails in every position",
+        "maxlit: maximal-length valid address literals followed by junk inside the brackets" };
     return n[i];
 }
 static int corpus_N(int i) {
@@ -75,6 +79,10 @@ static long corpus_shards(int i) {
     case CP_IDN: return 35 + 1;
     case CP_BYTES: return 24;
     case CP_LONG: return 12;
+    case CP_LONGIDN: return 7 + 2;
+    case CP_ALTDOT: return 8 + 1;
+    case CP_LABELLEN: return 13;
+    case CP_MAXLIT: return 6;
     }
     return 0;
 }
@@ -88,7 +96,7 @@ static const char *const C_SYM[35] = { "\xd0\xb6", "\xd0\xb0", "\xd1\x8f", "\xd1
 static const char *const C_RES[8] = { "test", "example", "invalid", "localhost", "onion", "example.com", "example.net", "example.org" };
 
 static void c_emit_str(emit_fn emit, void *arg, const char *fmt, ...) {
-    char b[1200]; va_list ap; va_start(ap, fmt); int n = vsnprintf(b, sizeof b, fmt, ap); va_end(ap);
+    char b[4200]; va_list ap; va_start(ap, fmt); int n = vsnprintf(b, sizeof b, fmt, ap); va_end(ap);
     if (n > 0 && (size_t)n < sizeof b) emit((unsigned char *)b, (size_t)n, arg);
 }
 
@@ -182,6 +190,77 @@ static void corpus_run(int ph, long shard, emit_fn emit, void *arg) {
             if (where == 2) { memcpy(big + l, dvs, dl); l += dl; }
             big[l] = 0; emit(big, l, arg);
         }
+    } break;
+    case CP_LONGIDN: {
+        static const char *const SF[5] = { "\xd1\x80\xd1\x84", "com", "zzzzq", "example", "ac" };
+        if (shard < 7) {
+            int nl = (int)shard + 1;
+            for (int per = 8; per <= 56; per += 4) for (int three = 0; three < 2; three++) for (int sf = 0; sf < 5; sf++) {
+                char d[1600]; int l = 0;
+                for (int k = 0; k < nl; k++) { for (int i = 0; i < per; i++) { if (three) { d[l++] = (char)0xe4; d[l++] = (char)0xb8; d[l++] = (char)(0x80 + (i * 7 + k) % 48); } else { d[l++] = (char)0xd0; d[l++] = (char)(0xb0 + (i + k) % 16); } } d[l++] = '.'; }
+                d[l] = 0; c_emit_str(emit, arg, "x@%s%s", d, SF[sf]);
+            }
+        } else if (shard == 7) {
+            /* the same long prefix (>= 255 bytes of UTF-8) with different last labels, validated back to back, twice */
+            for (int pl = 0; pl < 3; pl++) {
+                char P[900]; int l = 0; int per = 30 + pl * 10, nl = 5 - pl;
+                for (int k = 0; k < nl; k++) { for (int i = 0; i < per; i++) { P[l++] = (char)0xd0; P[l++] = (char)(0xb0 + (i + 3 * k) % 16); } P[l++] = '.'; }
+                P[l] = 0;
+                static const char *const T[] = { "com", "zzzzq", "\xd1\x80\xd1\x84", "\xd0\xbc\xd0\xbe\xd1\x81\xd0\xba\xd0\xb2\xd0\xb0", "com", "\xe2\x99\xa5", "a\xff", "org", "-a", "example", "com" };
+                for (int rep = 0; rep < 2; rep++) for (unsigned t = 0; t < sizeof T / sizeof T[0]; t++) c_emit_str(emit, arg, "x@%s%s", P, T[t]);
+            }
+        } else {
+            /* soft hyphens (mapped to nothing by IDNA) pad the UTF-8 spelling far beyond any buffer while the A-label form stays tiny */
+            static const int K[] = { 1, 50, 120, 127, 128, 300, 509, 510, 511, 512, 600, 1021, 1022, 1023, 1024, 1500 };
+            static const char *const TAIL[] = { ".com", ".com..", "-.com", ".c!m", ".com.", "..com", ".zzzzq", ".example", "", ".-com", ".com-" };
+            for (unsigned ki = 0; ki < sizeof K / sizeof K[0]; ki++) for (unsigned t = 0; t < sizeof TAIL / sizeof TAIL[0]; t++) for (int lead = 0; lead < 2; lead++) {
+                static char d[3300]; int l = 0; d[l++] = 'x'; d[l++] = '@'; if (lead) d[l++] = 'a';
+                for (int i = 0; i < K[ki]; i++) { d[l++] = (char)0xc2; d[l++] = (char)0xad; }
+                if (!lead) d[l++] = 'b';
+                strcpy(d + l, TAIL[t]); emit((unsigned char *)d, strlen(d), arg);
+            }
+        }
+    } break;
+    case CP_ALTDOT: {
+        static const char *const DOT[4] = { ".", "\xe3\x80\x82", "\xef\xbc\x8e", "\xef\xbd\xa1" };
+        char fw[200];
+        const char *names[9]; int nn = 0;
+        if (shard < 8) names[nn++] = C_RES[shard];
+        else { names[nn++] = "com"; names[nn++] = "ac"; names[nn++] = "museum"; names[nn++] = "xn--p1ai"; names[nn++] = "zzzzq"; }
+        for (int k = 0; k < nn; k++) {
+            const char *nm = names[k];
+            /* fullwidth spelling of the ASCII letters (U+FF41 + c - 'a'), dots kept */
+            int l = 0; for (const char *q = nm; *q; q++) { if (*q >= 'a' && *q <= 'z') { fw[l++] = (char)0xef; fw[l++] = (char)0xbd; fw[l++] = (char)(0x81 + (*q - 'a')); } else fw[l++] = *q; } fw[l] = 0;
+            for (int d1 = 0; d1 < 4; d1++) for (int d2 = 0; d2 < 4; d2++) {
+                /* the name's own inner dot (example.com) spelled with d2, the joining dot with d1 */
+                char nm2[200]; int m = 0; for (const char *q = nm; *q; q++) { if (*q == '.') { strcpy(nm2 + m, DOT[d2]); m += (int)strlen(DOT[d2]); } else nm2[m++] = *q; } nm2[m] = 0;
+                char fw2[300]; m = 0; for (const char *q = fw; *q; q++) { if (*q == '.') { strcpy(fw2 + m, DOT[d2]); m += (int)strlen(DOT[d2]); } else fw2[m++] = *q; } fw2[m] = 0;
+                c_emit_str(emit, arg, "x@mail%s%s", DOT[d1], nm2); c_emit_str(emit, arg, "x@abcdefg%s%s", DOT[d1], nm2);
+                c_emit_str(emit, arg, "x@mail%s%s", DOT[d1], fw2); c_emit_str(emit, arg, "x@\xd0\xb6%s%s", DOT[d1], nm2);
+                if (d1 == 0) { c_emit_str(emit, arg, "x@%s", nm2); c_emit_str(emit, arg, "x@%s", fw2); c_emit_str(emit, arg, "x@%s%s", nm2, DOT[d2]); }
+            }
+        }
+    } break;
+    case CP_LABELLEN: {
+        int len = 58 + (int)shard;       /* 58..70 */
+        static const char *const SHAPE[] = { "", "_", "__", "____", "-", "-a", "_a", "a_", "1", "-_" };   /* tail of the label */
+        for (unsigned sh = 0; sh < sizeof SHAPE / sizeof SHAPE[0]; sh++) {
+            char lab[96]; int tl = (int)strlen(SHAPE[sh]); if (tl > len) continue;
+            for (int i = 0; i < len - tl; i++) lab[i] = (char)('a' + i % 26); memcpy(lab + len - tl, SHAPE[sh], (size_t)tl); lab[len] = 0;
+            c_emit_str(emit, arg, "x@%s.com", lab); c_emit_str(emit, arg, "x@a.%s", lab); c_emit_str(emit, arg, "x@a.%s.com", lab); c_emit_str(emit, arg, "x@%s", lab); c_emit_str(emit, arg, "x@a.%s.", lab);
+            /* the special character exactly at the 64th position of a longer label */
+            if (len >= 65) for (const char *sp = "_-"; *sp; sp++) { for (int i = 0; i < len; i++) lab[i] = (char)('a' + i % 26); lab[63] = *sp; lab[len] = 0; c_emit_str(emit, arg, "x@%s.com", lab); c_emit_str(emit, arg, "x@a.%s", lab); }
+        }
+    } break;
+    case CP_MAXLIT: {
+        static const char *const LIT[6] = { "IPv6:ffff:ffff:ffff:ffff:ffff:ffff:255.255.255.255", "ffff:ffff:ffff:ffff:ffff:ffff:ffff:ffff", "255.255.255.255",
+            "IPv6:ffff:ffff:ffff::ffff:255.255.255.255", "IPv6:ffff:ffff:ffff:ffff:ffff:ffff:ffff:ffff", "IPv6:1111:2222:3333:4444:5555:6666:123.123.123.123" };
+        static const char *const JUNK[] = { "", ".1", ".evil.example.com", ":1", "x", " ", "0", "1", ":", "::", ".", "%eth0", "/64", "]", "[", ".255", ":ffff", "\x01", "\xd0\xb6" };
+        const char *lit = LIT[shard];
+        for (unsigned j = 0; j < sizeof JUNK / sizeof JUNK[0]; j++) { c_emit_str(emit, arg, "x@[%s%s]", lit, JUNK[j]); c_emit_str(emit, arg, "x@[%s]%s", lit, JUNK[j]); c_emit_str(emit, arg, "x@[%s%s", lit, JUNK[j]); }
+        for (int n = 1; n <= 24; n++) for (const char *f = "a1.:"; *f; f++) { char junk[32]; memset(junk, *f, (size_t)n); junk[n] = 0; c_emit_str(emit, arg, "x@[%s%s]", lit, junk); }
+        /* every proper prefix of the literal */
+        for (size_t cut = 1; cut < strlen(lit); cut++) { char pre[96]; memcpy(pre, lit, cut); pre[cut] = 0; c_emit_str(emit, arg, "x@[%s]", pre); }
     } break;
     }
 }
